@@ -6,9 +6,10 @@ CONSTANTS
   JitClasses = {"zero"}
   Plan = "three"
   Kinds = {"good", "wrongid"}
-  MaxFlips = 1
+  MaxFlips = 0
+  MaxReplies = 2
   AllowCancel = FALSE
   AllowDestroy = TRUE
   PortReuse = TRUE
-INVARIANTS ICompleteOnce INoTxAfterDone ITxBound ISlots IArmed IMatch IDelivered IFailover IQuiescent IDestroyed IMemSafe IDuration
+INVARIANTS ICompleteOnce INoTxAfterDone ITxBound ISlots IArmed IMatch IDelivered IFailover IQuiescent IDestroyed IMemSafe INas IDuration
 CHECK_DEADLOCK FALSE
